@@ -1,3 +1,48 @@
+/-
+  C08 -- history independence for documents WITH comments: naturality of the comment stages in the placeholder ids.
+
+  The reader gives every line comment an id drawn from the process-global counter (`Counter.next`, ids `0 … 999999`, wrapping),
+  puts an entry `LINECOMMENTnnnnnn ↦ LINECOMMENTnnnnnn` into the data where the comment stands and the text into the table
+  `lineC` under that id.  Block comments are numbered `0, 1, 2, …` per text (`lexBlockCommentsFuel`, `labelCItems`): their ids
+  do not depend on the counter.  So two reads of the same text from two counter values differ exactly by a renaming of the
+  line-comment ids; this file proves that, through `_clean` (which deletes comment entries whose text repeats) and through
+  the whole reader (`C12_read_commented`).
+
+    1  `phIdOf`, `renWord f g`, `renKey`, `renScalar`, `renV` / `renEs` / `renXs`, `renTbl`, `renSD f g`
+           the renaming: a word `LINECOMMENT%06d` (id below 10^6) gets its id mapped by `f`, `BLOCKCOMMENT%06d` by `g`, every
+           other string is left alone (`renWord_spec`: complete, exclusive case analysis; `renWord_noComment`); on values:
+           keys and string leaves, also inside lists; on an `SDict`: data, `lineC` re-keyed by `f`, `blockC` by `g`
+       `RenOK f`   injective, and six-digit ids stay six-digit
+    2a `clean_ren`            `(renSD f g s).clean = renSD f g s.clean` for `RenOK f`, `RenOK g`, provided every key `_clean`
+                              looks at is an exact placeholder word or contains no placeholder (`PhWFEs s.data`)
+       `clean_ren_needs_wf`   … which is needed: refuted on a witness without it
+    2b `ren_denSrcV/Es/Xs`    the comment-free part of a well-formed document is untouched by any renaming
+    2c `label_natI`           labelling from two counters related by `f` (`CRel f c₁ c₂`: `f` maps the `j`-th id drawn from
+                              `c₁` to the `j`-th id drawn from `c₂`, all `j`): states and meanings related by the renaming
+       `phWF_labelI`          the meaning of a commented document satisfies `PhWFEs`
+    2d `shift c₁ c₂`, `shift_ok`, `shift_rel`   the rotation of `0 … 999999` by `start c₂ - start c₁`: a bijection, so the
+                              collision pattern across the wrap-around is the same in both reads and NO bound on the number of
+                              line comments is needed
+       `denC_natural`         `denC c₂ items = renSD (shift c₁ c₂) id (denC c₁ items)`, with `shift` injective and
+                              `(alloc limit k c₁).map (shift c₁ c₂) = alloc limit k c₂` for every `k`
+       `drawn_ids`            with at most `limit + 1` line comments the table built is keyed by `alloc limit n c`
+    3  `C08_commented_read_natural`   both reads `.ok`, results related by `renSD (shift c₁ c₂) id`
+       `counterAfter_rel`     … and so are the counters they leave: sequences of reads stay related
+       `C08_commented_read_stripped`  stripped data, line-comment texts in table order, block-comment table: EQUAL
+    4  `canonSD`, `canonSD_ren`, `C08_denC_canon`, `C08_commented_canon`
+           canonical form (ids ↦ rank of first appearance per kind, in the traversal "entries in order, key before value",
+           then the table keys; tables re-keyed): invariant under every renaming injective on the ids occurring;
+           the canonical forms of the two reads are EQUAL (what the harness compares on the real code)
+    5  `exDoc_reads` … `exDoc_canon_eval`   the example of `C12stages` from `none` and from `some 999998` (ids 999999, 0, 1)
+    6  `exDoc_block_ids_local`, `clean_ren_needs_wf`   negatives on witnesses
+
+  Added hypothesis (beyond those of `C12_read_commented` for both counters): `nBlockI items ≤ 1000000`.  Block comments are
+  numbered locally; from the 1 000 001-st on the reader's own placeholder has seven digits (`BLOCKCOMMENT1000000`), which
+  `_clean`'s `\d{6}` reads as id 100000: outside the placeholder format this file's renaming speaks about (`KeyOK`).  The
+  statement is probably still true there (both reads agree on block comments), but it is not proved.  The task's own bound
+  "at most limit + 1 comments" implies it; line comments need no bound at all.
+  Scope: documents of `CSrc` (comments at statement boundaries, no include directives, no `$`), as in `C12_read_commented`.
+-/
 import DictIO.Props.C12off
 import DictIO.Props.C08
 
@@ -1038,7 +1083,85 @@ theorem denC_natural {d : Nat} {items : List CItem} {c₁ c₂ : Counter} (hwf :
   ⟨(shift_ok c₁ c₂).inj, shift_rel hc₁ hc₂, denC_natural_of (shift_ok c₁ c₂) hwf hc₁ (shift_rel hc₁ hc₂) hb⟩
 
 
+/-! ### the ids drawn are `alloc` lists -/
+
+mutual
+  theorem counter_labelV_adv : ∀ (v : CSrc) (st : CLabelSt),
+      (labelCV st v).1.counter = C02.adv Gen.counterLimit (nLineV v) st.counter
+    | .lit l, st => by simp only [labelCV, nLineV, C02.adv]
+    | .dict items, st => by simp only [labelCV, nLineV, counter_labelI_adv items st]
+    | .list xs, st => by simp only [labelCV, nLineV, C02.adv]
+  /-- the counter after the comment stages: advanced once per line comment -/
+  theorem counter_labelI_adv : ∀ (items : List CItem) (st : CLabelSt),
+      (labelCItems st items).1.counter = C02.adv Gen.counterLimit (nLineI items) st.counter
+    | [], st => by simp only [labelCItems, nLineI, C02.adv]
+    | .entry k v :: r, st => by
+      simp only [labelCItems, nLineI, counter_labelI_adv r _, counter_labelV_adv v st, C02.adv_add]
+    | .lineC x :: r, st => by
+      simp only [labelCItems, nLineI, counter_labelI_adv r _, Nat.add_comm 1, C02.adv]
+    | .blockC x :: r, st => by simp only [labelCItems, nLineI, counter_labelI_adv r _]
+end
+
+theorem tbl_set_keys_new {α} (i : Nat) (a : α) : ∀ t : Tbl α, i ∉ t.map (·.1) →
+    (Tbl.set i a t).map (·.1) = t.map (·.1) ++ [i]
+  | [], _ => rfl
+  | (j, b) :: t, h => by
+    have hj : ¬ j = i := fun e => h (by simp [e])
+    have ih := tbl_set_keys_new i a t (fun hm => h (by simp [hm]))
+    simp only [Tbl.set, hj, if_false, List.map_cons, ih, List.cons_append]
+
+mutual
+  theorem lineKeys_labelV : ∀ (v : CSrc) (st : CLabelSt),
+      (st.lineC.map (·.1) ++ alloc Gen.counterLimit (nLineV v) st.counter).Nodup →
+      (labelCV st v).1.lineC.map (·.1) = st.lineC.map (·.1) ++ alloc Gen.counterLimit (nLineV v) st.counter
+    | .lit l, st, _ => by simp only [labelCV, nLineV, alloc, List.append_nil]
+    | .dict items, st, h => by
+      simp only [nLineV] at h
+      simp only [labelCV, nLineV, lineKeys_labelI items st h]
+    | .list xs, st, _ => by simp only [labelCV, nLineV, alloc, List.append_nil]
+  /-- as long as the ids drawn do not collide with each other or with the table, the line-comment table (before
+      `_clean`) grows by exactly the `alloc` list of the counter: one entry per line comment, in document order -/
+  theorem lineKeys_labelI : ∀ (items : List CItem) (st : CLabelSt),
+      (st.lineC.map (·.1) ++ alloc Gen.counterLimit (nLineI items) st.counter).Nodup →
+      (labelCItems st items).1.lineC.map (·.1) = st.lineC.map (·.1) ++ alloc Gen.counterLimit (nLineI items) st.counter
+    | [], st, _ => by simp only [labelCItems, nLineI, alloc, List.append_nil]
+    | .entry k v :: r, st, h => by
+      simp only [nLineI, C02.alloc_add, ← List.append_assoc] at h
+      have hv := lineKeys_labelV v st (List.Nodup.sublist (List.sublist_append_left _ _) h)
+      rw [← hv, ← counter_labelV_adv v st] at h
+      simp only [labelCItems, nLineI, C02.alloc_add]
+      rw [lineKeys_labelI r _ h, hv, counter_labelV_adv v st, List.append_assoc]
+    | .lineC x :: r, st, h => by
+      simp only [nLineI, Nat.add_comm 1, C13.alloc_succ] at h
+      have hi : (Counter.next Gen.counterLimit st.counter).1 ∉ st.lineC.map (·.1) := by
+        intro hm
+        exact (List.nodup_append.mp h).2.2 _ hm _ List.mem_cons_self rfl
+      have hk := tbl_set_keys_new (Counter.next Gen.counterLimit st.counter).1 ('/' :: '/' :: x) st.lineC hi
+      simp only [labelCItems, nLineI, Nat.add_comm 1, C13.alloc_succ]
+      rw [lineKeys_labelI r _ (by rw [hk, List.append_assoc]; exact h), hk, List.append_assoc]
+      rfl
+    | .blockC x :: r, st, h => by
+      simp only [nLineI] at h
+      simp only [labelCItems, nLineI]
+      exact lineKeys_labelI r _ h
+end
+
+/-- **the ids drawn are an `alloc` list**: with at most `limit + 1` line comments, the line-comment table the comment
+    stages build (before `_clean`) is keyed by the ids `alloc limit n c`, `n` the number of line comments, in document
+    order; the counter afterwards is `c` advanced `n` times -/
+theorem drawn_ids {items : List CItem} {c : Counter} (hc : C13.ValidCounter Gen.counterLimit c)
+    (hn : nLineI items ≤ Gen.counterLimit + 1) :
+    (labelCItems { counter := c } items).1.lineC.map (·.1) = alloc Gen.counterLimit (nLineI items) c ∧
+      (labelCItems { counter := c } items).1.counter = C02.adv Gen.counterLimit (nLineI items) c := by
+  refine ⟨?_, counter_labelI_adv items _⟩
+  have := lineKeys_labelI items { counter := c } (by simpa using C13.alloc_nodup hn hc)
+  simpa using this
+
 /-! ## 3. the reader: two reads of the same text from two counter values -/
+
+/-- the counter after the read (`C12_read_commented`): advanced by the line comments, then by the quoted strings -/
+def counterAfter (c : Counter) (items : List CItem) : Counter :=
+  C02.adv Gen.counterLimit (C02.countQuotedEs (plainItems items)) (labelCItems { counter := c } items).1.counter
 
 /-- **C08 for commented documents.**  For every well-formed commented document in every admissible layout, every
     directory and every two valid counter values, both reads succeed, and the second result is the first one with the
@@ -1051,12 +1174,25 @@ theorem C08_commented_read_natural {items : List CItem} {gaps : List Str} {tail 
     (hc₁ : C13.ValidCounter Gen.counterLimit c₁) (hc₂ : C13.ValidCounter Gen.counterLimit c₂)
     (hn : C02.countQuotedEs (plainItems items) ≤ Gen.counterLimit + 1)
     (hd : C02.DocKeysAbsent (plainItems items)) (hb : nBlockI items ≤ 1000000) :
-    ∃ sd c₁' c₂',
-      parseNative true dir c₁ (spreadC (ctoksItems items) gaps tail) = .ok (sd, c₁') ∧
-      parseNative true dir c₂ (spreadC (ctoksItems items) gaps tail) = .ok (renSD (shift c₁ c₂) id sd, c₂') ∧
-      sd = denC c₁ items := by
-  refine ⟨denC c₁ items, _, _, C12.C12_read_commented dir c₁ hwf hg htail hc₁ hn hd, ?_, rfl⟩
+    parseNative true dir c₁ (spreadC (ctoksItems items) gaps tail) = .ok (denC c₁ items, counterAfter c₁ items) ∧
+    parseNative true dir c₂ (spreadC (ctoksItems items) gaps tail) =
+      .ok (renSD (shift c₁ c₂) id (denC c₁ items), counterAfter c₂ items) := by
+  refine ⟨C12.C12_read_commented dir c₁ hwf hg htail hc₁ hn hd, ?_⟩
   rw [C12.C12_read_commented dir c₂ hwf hg htail hc₂ hn hd, (denC_natural hwf hc₁ hc₂ hb).2.2]
+  rfl
+
+theorem CRel.adv {f : Nat → Nat} : ∀ (k : Nat) {c₁ c₂ : Counter}, CRel f c₁ c₂ →
+    CRel f (C02.adv Gen.counterLimit k c₁) (C02.adv Gen.counterLimit k c₂)
+  | 0, _, _, h => h
+  | k + 1, _, _, h => by simp only [C02.adv]; exact CRel.adv k h.next.2
+
+/-- the counters the two reads leave behind are related by the same rotation: a *sequence* of reads from `c₁` and the
+    same sequence from `c₂` stay related by `shift c₁ c₂` -/
+theorem counterAfter_rel {c₁ c₂ : Counter} (items : List CItem) (hc₁ : C13.ValidCounter Gen.counterLimit c₁)
+    (hc₂ : C13.ValidCounter Gen.counterLimit c₂) :
+    CRel (shift c₁ c₂) (counterAfter c₁ items) (counterAfter c₂ items) := by
+  simp only [counterAfter, counter_labelI_adv]
+  exact CRel.adv _ (CRel.adv _ (shift_rel hc₁ hc₂))
 
 /-- what the renaming leaves alone: the comment texts in table order, and the whole block-comment table -/
 theorem renSD_texts (f : Nat → Nat) (sd : SD) :
@@ -1077,9 +1213,503 @@ theorem C08_commented_read_stripped {items : List CItem} {gaps : List Str} {tail
       parseNative true dir c₂ (spreadC (ctoksItems items) gaps tail) = .ok (sd₂, c₂') ∧
       C12.stripPhEs sd₂.data = C12.stripPhEs sd₁.data ∧
       sd₂.lineC.map (·.2) = sd₁.lineC.map (·.2) ∧ sd₂.blockC = sd₁.blockC := by
-  obtain ⟨sd, c₁', c₂', h₁, h₂, e⟩ := C08_commented_read_natural dir hwf hg htail hc₁ hc₂ hn hd hb
-  refine ⟨sd, _, c₁', c₂', h₁, h₂, ?_, (renSD_texts _ sd).1, (renSD_texts _ sd).2.1⟩
-  rw [e, ← (denC_natural hwf hc₁ hc₂ hb).2.2, C12.C12_data_on_off c₂ hwf, C12.C12_data_on_off c₁ hwf,
+  obtain ⟨h₁, h₂⟩ := C08_commented_read_natural dir hwf hg htail hc₁ hc₂ hn hd hb
+  refine ⟨_, _, _, _, h₁, h₂, ?_, (renSD_texts _ _).1, (renSD_texts _ _).2.1⟩
+  rw [← (denC_natural hwf hc₁ hc₂ hb).2.2, C12.C12_data_on_off c₂ hwf, C12.C12_data_on_off c₁ hwf,
     C12.denCoff_data c₂ hwf, C12.denCoff_data c₁ hwf]
+
+
+/-! ## 4. the canonical form: ids replaced by their rank of first appearance -/
+
+/-- the id of kind `kw` a word carries, if it is a placeholder word of that kind -/
+def wordIds (kw s : Str) : List Nat := (phIdOf kw s).toList
+
+def keyIds (kw : Str) : Key → List Nat
+  | .str s => wordIds kw s
+  | .int _ => []
+
+def scalarIds (kw : Str) : Scalar → List Nat
+  | .str s => wordIds kw s
+  | _ => []
+
+mutual
+  /-- the placeholder ids of kind `kw` in a value, in the fixed traversal: entries in order, key before value -/
+  def idsV (kw : Str) : Val → List Nat
+    | .leaf x => scalarIds kw x
+    | .dict es => idsEs kw es
+    | .list xs => idsXs kw xs
+  def idsEs (kw : Str) : Entries → List Nat
+    | [] => []
+    | (k, v) :: es => keyIds kw k ++ idsV kw v ++ idsEs kw es
+  def idsXs (kw : Str) : List Val → List Nat
+    | [] => []
+    | v :: xs => idsV kw v ++ idsXs kw xs
+end
+
+/-- rank of first appearance of `i` in `ids` -/
+def rankOf (ids : List Nat) (i : Nat) : Nat := ids.eraseDups.idxOf i
+
+/-- all line-comment ids of an `SDict`: those in the data (traversal order), then the keys of the table -/
+def lineIdsSD (sd : SD) : List Nat := idsEs kwLine sd.data ++ sd.lineC.map (·.1)
+def blockIdsSD (sd : SD) : List Nat := idsEs kwBlock sd.data ++ sd.blockC.map (·.1)
+
+/-- the canonical form: every line-comment id replaced by its rank of first appearance among the line-comment ids,
+    every block-comment id by its rank among the block-comment ids; tables re-keyed accordingly -/
+def canonSD (sd : SD) : SD := renSD (rankOf (lineIdsSD sd)) (rankOf (blockIdsSD sd)) sd
+
+theorem idsEs_nil (kw : Str) : idsEs kw [] = [] := by simp only [idsEs]
+theorem idsEs_cons (kw : Str) (k : Key) (v : Val) (es : Entries) :
+    idsEs kw ((k, v) :: es) = keyIds kw k ++ idsV kw v ++ idsEs kw es := by simp only [idsEs]
+theorem idsXs_nil (kw : Str) : idsXs kw [] = [] := by simp only [idsXs]
+theorem idsXs_cons (kw : Str) (v : Val) (xs : List Val) : idsXs kw (v :: xs) = idsV kw v ++ idsXs kw xs := by
+  simp only [idsXs]
+theorem idsV_leaf (kw : Str) (x : Scalar) : idsV kw (.leaf x) = scalarIds kw x := by simp only [idsV]
+theorem idsV_dict (kw : Str) (es : Entries) : idsV kw (.dict es) = idsEs kw es := by simp only [idsV]
+theorem idsV_list (kw : Str) (xs : List Val) : idsV kw (.list xs) = idsXs kw xs := by simp only [idsV]
+
+/-! ### words -/
+
+theorem mem_wordIds {kw s : Str} {i : Nat} : i ∈ wordIds kw s ↔ phIdOf kw s = some i := by
+  simp [wordIds, Option.mem_toList]
+
+theorem wordIds_line_ren (f g : Nat → Nat) (s : Str) (hb : ∀ i ∈ wordIds kwLine s, f i < 1000000) :
+    wordIds kwLine (renWord f g s) = (wordIds kwLine s).map f := by
+  rcases renWord_spec f g s with ⟨i, hi, e, h⟩ | ⟨i, hi, e, h⟩ | ⟨h1, h2, h⟩
+  · have hfi := hb i (mem_wordIds.mpr (by rw [e]; exact phIdOf_line_linePh hi))
+    rw [h, e]
+    simp only [wordIds, phIdOf_line_linePh hi, phIdOf_line_linePh hfi, Option.toList_some, List.map_cons, List.map_nil]
+  · rw [h, e]
+    simp only [wordIds, phIdOf_line_blockPh, Option.toList_none, List.map_nil]
+  · rw [h]
+    have : phIdOf kwLine s = none := by
+      cases hp : phIdOf kwLine s with
+      | none => rfl
+      | some i => exact absurd (phIdOf_some hp).2 (h1 i (phIdOf_some hp).1)
+    simp only [wordIds, this, Option.toList_none, List.map_nil]
+
+theorem wordIds_block_ren (f g : Nat → Nat) (s : Str) (hb : ∀ i ∈ wordIds kwBlock s, g i < 1000000) :
+    wordIds kwBlock (renWord f g s) = (wordIds kwBlock s).map g := by
+  rcases renWord_spec f g s with ⟨i, hi, e, h⟩ | ⟨i, hi, e, h⟩ | ⟨h1, h2, h⟩
+  · rw [h, e]
+    simp only [wordIds, phIdOf_block_linePh, Option.toList_none, List.map_nil]
+  · have hgi := hb i (mem_wordIds.mpr (by rw [e]; exact phIdOf_block_blockPh hi))
+    rw [h, e]
+    simp only [wordIds, phIdOf_block_blockPh hi, phIdOf_block_blockPh hgi, Option.toList_some, List.map_cons, List.map_nil]
+  · rw [h]
+    have : phIdOf kwBlock s = none := by
+      cases hp : phIdOf kwBlock s with
+      | none => rfl
+      | some i => exact absurd (phIdOf_some hp).2 (h2 i (phIdOf_some hp).1)
+    simp only [wordIds, this, Option.toList_none, List.map_nil]
+
+theorem renWord_comp (F G f g : Nat → Nat) (s : Str) (hl : ∀ i ∈ wordIds kwLine s, f i < 1000000)
+    (hb : ∀ i ∈ wordIds kwBlock s, g i < 1000000) :
+    renWord F G (renWord f g s) = renWord (F ∘ f) (G ∘ g) s := by
+  rcases renWord_spec f g s with ⟨i, hi, e, h⟩ | ⟨i, hi, e, h⟩ | ⟨h1, h2, h⟩
+  · have hfi := hl i (mem_wordIds.mpr (by rw [e]; exact phIdOf_line_linePh hi))
+    rw [h, e, renWord_linePh F G hfi, renWord_linePh _ _ hi]; rfl
+  · have hgi := hb i (mem_wordIds.mpr (by rw [e]; exact phIdOf_block_blockPh hi))
+    rw [h, e, renWord_blockPh F G hgi, renWord_blockPh _ _ hi]; rfl
+  · rw [h]
+    rcases renWord_spec F G s with ⟨i, hi, e, _⟩ | ⟨i, hi, e, _⟩ | ⟨_, _, h'⟩
+    · exact absurd e (h1 i hi)
+    · exact absurd e (h2 i hi)
+    · rw [h']
+      rcases renWord_spec (F ∘ f) (G ∘ g) s with ⟨i, hi, e, _⟩ | ⟨i, hi, e, _⟩ | ⟨_, _, h''⟩
+      · exact absurd e (h1 i hi)
+      · exact absurd e (h2 i hi)
+      · exact h''.symm
+
+theorem renWord_congr {F G F' G' : Nat → Nat} (s : Str) (hl : ∀ i ∈ wordIds kwLine s, F i = F' i)
+    (hb : ∀ i ∈ wordIds kwBlock s, G i = G' i) : renWord F G s = renWord F' G' s := by
+  rcases renWord_spec F G s with ⟨i, hi, e, h⟩ | ⟨i, hi, e, h⟩ | ⟨h1, h2, h⟩
+  · rw [h, e, renWord_linePh _ _ hi, hl i (mem_wordIds.mpr (by rw [e]; exact phIdOf_line_linePh hi))]
+  · rw [h, e, renWord_blockPh _ _ hi, hb i (mem_wordIds.mpr (by rw [e]; exact phIdOf_block_blockPh hi))]
+  · rw [h]
+    rcases renWord_spec F' G' s with ⟨i, hi, e, _⟩ | ⟨i, hi, e, _⟩ | ⟨_, _, h'⟩
+    · exact absurd e (h1 i hi)
+    · exact absurd e (h2 i hi)
+    · exact h'.symm
+
+
+/-! ### values -/
+
+/-- the word-level fact `wordIds_line_ren` / `wordIds_block_ren`, abstracted over the kind -/
+def WordNat (kw : Str) (h f g : Nat → Nat) : Prop :=
+  ∀ s, (∀ i ∈ wordIds kw s, h i < 1000000) → wordIds kw (renWord f g s) = (wordIds kw s).map h
+
+theorem wordNat_line (f g : Nat → Nat) : WordNat kwLine f f g := wordIds_line_ren f g
+theorem wordNat_block (f g : Nat → Nat) : WordNat kwBlock g f g := wordIds_block_ren f g
+
+theorem keyIds_ren {kw : Str} {h f g : Nat → Nat} (hw : WordNat kw h f g) (k : Key)
+    (hb : ∀ i ∈ keyIds kw k, h i < 1000000) : keyIds kw (renKey f g k) = (keyIds kw k).map h := by
+  cases k with
+  | int z => rfl
+  | str s => exact hw s hb
+
+theorem scalarIds_ren {kw : Str} {h f g : Nat → Nat} (hw : WordNat kw h f g) (x : Scalar)
+    (hb : ∀ i ∈ scalarIds kw x, h i < 1000000) : scalarIds kw (renScalar f g x) = (scalarIds kw x).map h := by
+  cases x with
+  | str s => exact hw s hb
+  | _ => rfl
+
+mutual
+  theorem idsV_ren {kw : Str} {h f g : Nat → Nat} (hw : WordNat kw h f g) : ∀ (v : Val),
+      (∀ i ∈ idsV kw v, h i < 1000000) → idsV kw (renV f g v) = (idsV kw v).map h
+    | .leaf x, hb => by
+      rw [idsV_leaf] at hb
+      rw [renV_leaf, idsV_leaf, idsV_leaf, scalarIds_ren hw x hb]
+    | .dict es, hb => by
+      rw [idsV_dict] at hb
+      rw [renV_dict, idsV_dict, idsV_dict, idsEs_ren hw es hb]
+    | .list xs, hb => by
+      rw [idsV_list] at hb
+      rw [renV_list, idsV_list, idsV_list, idsXs_ren hw xs hb]
+  theorem idsEs_ren {kw : Str} {h f g : Nat → Nat} (hw : WordNat kw h f g) : ∀ (es : Entries),
+      (∀ i ∈ idsEs kw es, h i < 1000000) → idsEs kw (renEs f g es) = (idsEs kw es).map h
+    | [], _ => by rw [renEs_nil, idsEs_nil, List.map_nil]
+    | (k, v) :: es, hb => by
+      rw [idsEs_cons] at hb
+      rw [renEs_cons, idsEs_cons, idsEs_cons, List.map_append, List.map_append,
+        keyIds_ren hw k (fun i hi => hb i (by simp [hi])),
+        idsV_ren hw v (fun i hi => hb i (by simp [hi])),
+        idsEs_ren hw es (fun i hi => hb i (by simp [hi]))]
+  theorem idsXs_ren {kw : Str} {h f g : Nat → Nat} (hw : WordNat kw h f g) : ∀ (xs : List Val),
+      (∀ i ∈ idsXs kw xs, h i < 1000000) → idsXs kw (renXs f g xs) = (idsXs kw xs).map h
+    | [], _ => by rw [renXs_nil, idsXs_nil, List.map_nil]
+    | v :: xs, hb => by
+      rw [idsXs_cons] at hb
+      rw [renXs_cons, idsXs_cons, idsXs_cons, List.map_append,
+        idsV_ren hw v (fun i hi => hb i (by simp [hi])),
+        idsXs_ren hw xs (fun i hi => hb i (by simp [hi]))]
+end
+
+theorem renKey_comp (F G f g : Nat → Nat) (k : Key) (hl : ∀ i ∈ keyIds kwLine k, f i < 1000000)
+    (hb : ∀ i ∈ keyIds kwBlock k, g i < 1000000) :
+    renKey F G (renKey f g k) = renKey (F ∘ f) (G ∘ g) k := by
+  cases k with
+  | int z => rfl
+  | str s => simp only [renKey]; rw [renWord_comp F G f g s hl hb]
+
+theorem renScalar_comp (F G f g : Nat → Nat) (x : Scalar) (hl : ∀ i ∈ scalarIds kwLine x, f i < 1000000)
+    (hb : ∀ i ∈ scalarIds kwBlock x, g i < 1000000) :
+    renScalar F G (renScalar f g x) = renScalar (F ∘ f) (G ∘ g) x := by
+  cases x with
+  | str s => simp only [renScalar]; rw [renWord_comp F G f g s hl hb]
+  | _ => rfl
+
+mutual
+  theorem renV_comp (F G f g : Nat → Nat) : ∀ (v : Val), (∀ i ∈ idsV kwLine v, f i < 1000000) →
+      (∀ i ∈ idsV kwBlock v, g i < 1000000) → renV F G (renV f g v) = renV (F ∘ f) (G ∘ g) v
+    | .leaf x, hl, hb => by
+      rw [idsV_leaf] at hl hb
+      rw [renV_leaf, renV_leaf, renV_leaf, renScalar_comp F G f g x hl hb]
+    | .dict es, hl, hb => by
+      rw [idsV_dict] at hl hb
+      rw [renV_dict, renV_dict, renV_dict, renEs_comp F G f g es hl hb]
+    | .list xs, hl, hb => by
+      rw [idsV_list] at hl hb
+      rw [renV_list, renV_list, renV_list, renXs_comp F G f g xs hl hb]
+  theorem renEs_comp (F G f g : Nat → Nat) : ∀ (es : Entries), (∀ i ∈ idsEs kwLine es, f i < 1000000) →
+      (∀ i ∈ idsEs kwBlock es, g i < 1000000) → renEs F G (renEs f g es) = renEs (F ∘ f) (G ∘ g) es
+    | [], _, _ => by rw [renEs_nil, renEs_nil, renEs_nil]
+    | (k, v) :: es, hl, hb => by
+      rw [idsEs_cons] at hl hb
+      rw [renEs_cons, renEs_cons, renEs_cons,
+        renKey_comp F G f g k (fun i hi => hl i (by simp [hi])) (fun i hi => hb i (by simp [hi])),
+        renV_comp F G f g v (fun i hi => hl i (by simp [hi])) (fun i hi => hb i (by simp [hi])),
+        renEs_comp F G f g es (fun i hi => hl i (by simp [hi])) (fun i hi => hb i (by simp [hi]))]
+  theorem renXs_comp (F G f g : Nat → Nat) : ∀ (xs : List Val), (∀ i ∈ idsXs kwLine xs, f i < 1000000) →
+      (∀ i ∈ idsXs kwBlock xs, g i < 1000000) → renXs F G (renXs f g xs) = renXs (F ∘ f) (G ∘ g) xs
+    | [], _, _ => by rw [renXs_nil, renXs_nil, renXs_nil]
+    | v :: xs, hl, hb => by
+      rw [idsXs_cons] at hl hb
+      rw [renXs_cons, renXs_cons, renXs_cons,
+        renV_comp F G f g v (fun i hi => hl i (by simp [hi])) (fun i hi => hb i (by simp [hi])),
+        renXs_comp F G f g xs (fun i hi => hl i (by simp [hi])) (fun i hi => hb i (by simp [hi]))]
+end
+
+theorem renKey_congr {F G F' G' : Nat → Nat} (k : Key) (hl : ∀ i ∈ keyIds kwLine k, F i = F' i)
+    (hb : ∀ i ∈ keyIds kwBlock k, G i = G' i) : renKey F G k = renKey F' G' k := by
+  cases k with
+  | int z => rfl
+  | str s => simp only [renKey]; rw [renWord_congr s hl hb]
+
+theorem renScalar_congr {F G F' G' : Nat → Nat} (x : Scalar) (hl : ∀ i ∈ scalarIds kwLine x, F i = F' i)
+    (hb : ∀ i ∈ scalarIds kwBlock x, G i = G' i) : renScalar F G x = renScalar F' G' x := by
+  cases x with
+  | str s => simp only [renScalar]; rw [renWord_congr s hl hb]
+  | _ => rfl
+
+mutual
+  theorem renV_congr {F G F' G' : Nat → Nat} : ∀ (v : Val), (∀ i ∈ idsV kwLine v, F i = F' i) →
+      (∀ i ∈ idsV kwBlock v, G i = G' i) → renV F G v = renV F' G' v
+    | .leaf x, hl, hb => by
+      rw [idsV_leaf] at hl hb
+      rw [renV_leaf, renV_leaf, renScalar_congr x hl hb]
+    | .dict es, hl, hb => by
+      rw [idsV_dict] at hl hb
+      rw [renV_dict, renV_dict, renEs_congr es hl hb]
+    | .list xs, hl, hb => by
+      rw [idsV_list] at hl hb
+      rw [renV_list, renV_list, renXs_congr xs hl hb]
+  theorem renEs_congr {F G F' G' : Nat → Nat} : ∀ (es : Entries), (∀ i ∈ idsEs kwLine es, F i = F' i) →
+      (∀ i ∈ idsEs kwBlock es, G i = G' i) → renEs F G es = renEs F' G' es
+    | [], _, _ => by rw [renEs_nil, renEs_nil]
+    | (k, v) :: es, hl, hb => by
+      rw [idsEs_cons] at hl hb
+      rw [renEs_cons, renEs_cons,
+        renKey_congr k (fun i hi => hl i (by simp [hi])) (fun i hi => hb i (by simp [hi])),
+        renV_congr v (fun i hi => hl i (by simp [hi])) (fun i hi => hb i (by simp [hi])),
+        renEs_congr es (fun i hi => hl i (by simp [hi])) (fun i hi => hb i (by simp [hi]))]
+  theorem renXs_congr {F G F' G' : Nat → Nat} : ∀ (xs : List Val), (∀ i ∈ idsXs kwLine xs, F i = F' i) →
+      (∀ i ∈ idsXs kwBlock xs, G i = G' i) → renXs F G xs = renXs F' G' xs
+    | [], _, _ => by rw [renXs_nil, renXs_nil]
+    | v :: xs, hl, hb => by
+      rw [idsXs_cons] at hl hb
+      rw [renXs_cons, renXs_cons,
+        renV_congr v (fun i hi => hl i (by simp [hi])) (fun i hi => hb i (by simp [hi])),
+        renXs_congr xs (fun i hi => hl i (by simp [hi])) (fun i hi => hb i (by simp [hi]))]
+end
+
+
+/-! ### tables, ranks, and the invariance of the canonical form -/
+
+theorem renTbl_comp {α} (F f : Nat → Nat) (t : Tbl α) : renTbl F (renTbl f t) = renTbl (F ∘ f) t := by
+  simp only [renTbl, List.map_map]; rfl
+
+theorem renTbl_congr {α} {F F' : Nat → Nat} (t : Tbl α) (h : ∀ i ∈ t.map (·.1), F i = F' i) : renTbl F t = renTbl F' t := by
+  simp only [renTbl]
+  apply List.map_congr_left
+  intro e he
+  rw [h e.1 (List.mem_map_of_mem (f := (·.1)) he)]
+
+theorem renTbl_keys {α} (f : Nat → Nat) (t : Tbl α) : (renTbl f t).map (·.1) = (t.map (·.1)).map f := by
+  simp only [renTbl, List.map_map]; rfl
+
+/-- the rank of first appearance is invariant under a renaming that is injective on the list -/
+theorem rankOf_map {f : Nat → Nat} {L : List Nat} (hinj : ∀ a ∈ L, ∀ b ∈ L, f a = f b → a = b) {i : Nat} (hi : i ∈ L) :
+    rankOf (L.map f) (f i) = rankOf L i := by
+  simp only [rankOf]
+  rw [C13.eraseDups_map_injOn L.length L (Nat.le_refl _) hinj]
+  apply C13.idxOf_map_injOn
+  have hmem : ∀ x ∈ i :: L.eraseDups, x ∈ L := by
+    intro x hx
+    rcases List.mem_cons.mp hx with rfl | hx
+    · exact hi
+    · exact List.mem_eraseDups.mp hx
+  exact fun a ha b hb => hinj a (hmem a ha) b (hmem b hb)
+
+/-- **the canonical form forgets the ids**: it is invariant under every renaming that is injective on the ids occurring
+    in the `SDict` (data and table keys, per kind) and keeps the ids occurring in the data six-digit -/
+theorem canonSD_ren (f g : Nat → Nat) (sd : SD)
+    (hfi : ∀ a ∈ lineIdsSD sd, ∀ b ∈ lineIdsSD sd, f a = f b → a = b)
+    (hfb : ∀ a ∈ idsEs kwLine sd.data, f a < 1000000)
+    (hgi : ∀ a ∈ blockIdsSD sd, ∀ b ∈ blockIdsSD sd, g a = g b → a = b)
+    (hgb : ∀ a ∈ idsEs kwBlock sd.data, g a < 1000000) :
+    canonSD (renSD f g sd) = canonSD sd := by
+  have hL : lineIdsSD (renSD f g sd) = (lineIdsSD sd).map f := by
+    simp only [lineIdsSD, renSD, List.map_append, idsEs_ren (wordNat_line f g) sd.data hfb, renTbl_keys]
+  have hB : blockIdsSD (renSD f g sd) = (blockIdsSD sd).map g := by
+    simp only [blockIdsSD, renSD, List.map_append, idsEs_ren (wordNat_block f g) sd.data hgb, renTbl_keys]
+  simp only [canonSD]
+  rw [hL, hB]
+  have eL : ∀ i ∈ lineIdsSD sd, (rankOf ((lineIdsSD sd).map f) ∘ f) i = rankOf (lineIdsSD sd) i :=
+    fun i hi => rankOf_map hfi hi
+  have eB : ∀ i ∈ blockIdsSD sd, (rankOf ((blockIdsSD sd).map g) ∘ g) i = rankOf (blockIdsSD sd) i :=
+    fun i hi => rankOf_map hgi hi
+  apply sd_ext
+  · show renEs _ _ (renEs f g sd.data) = renEs _ _ sd.data
+    rw [renEs_comp _ _ f g sd.data hfb hgb]
+    exact renEs_congr sd.data (fun i hi => eL i (List.mem_append_left _ hi)) (fun i hi => eB i (List.mem_append_left _ hi))
+  · rfl
+  · show renTbl _ (renTbl f sd.lineC) = renTbl _ sd.lineC
+    rw [renTbl_comp]
+    exact renTbl_congr _ (fun i hi => eL i (List.mem_append_right _ hi))
+  · show renTbl _ (renTbl g sd.blockC) = renTbl _ sd.blockC
+    rw [renTbl_comp]
+    exact renTbl_congr _ (fun i hi => eB i (List.mem_append_right _ hi))
+  · rfl
+
+mutual
+  theorem idsV_lt (kw : Str) : ∀ (v : Val), ∀ a ∈ idsV kw v, a < 1000000
+    | .leaf x, a, ha => by
+      rw [idsV_leaf] at ha
+      cases x with
+      | str s => exact (phIdOf_some (mem_wordIds.mp ha)).1
+      | _ => cases ha
+    | .dict es, a, ha => by rw [idsV_dict] at ha; exact idsEs_lt kw es a ha
+    | .list xs, a, ha => by rw [idsV_list] at ha; exact idsXs_lt kw xs a ha
+  theorem idsEs_lt (kw : Str) : ∀ (es : Entries), ∀ a ∈ idsEs kw es, a < 1000000
+    | [], a, ha => by rw [idsEs_nil] at ha; cases ha
+    | (k, v) :: es, a, ha => by
+      rw [idsEs_cons, List.mem_append, List.mem_append] at ha
+      rcases ha with (ha | ha) | ha
+      · cases k with
+        | str s => exact (phIdOf_some (mem_wordIds.mp ha)).1
+        | int z => cases ha
+      · exact idsV_lt kw v a ha
+      · exact idsEs_lt kw es a ha
+  theorem idsXs_lt (kw : Str) : ∀ (xs : List Val), ∀ a ∈ idsXs kw xs, a < 1000000
+    | [], a, ha => by rw [idsXs_nil] at ha; cases ha
+    | v :: xs, a, ha => by
+      rw [idsXs_cons, List.mem_append] at ha
+      rcases ha with ha | ha
+      · exact idsV_lt kw v a ha
+      · exact idsXs_lt kw xs a ha
+end
+
+/-- the version for renamings that are injective everywhere -/
+theorem canonSD_ren' {f g : Nat → Nat} (hf : RenOK f) (hg : RenOK g) (sd : SD) :
+    canonSD (renSD f g sd) = canonSD sd :=
+  canonSD_ren f g sd (fun _ _ _ _ e => hf.inj e) (fun a ha => hf.lt a (idsEs_lt _ _ a ha)) (fun _ _ _ _ e => hg.inj e)
+    (fun a ha => hg.lt a (idsEs_lt _ _ a ha))
+
+/-- **the canonical forms of the meanings from two counters are equal** -/
+theorem C08_denC_canon {d : Nat} {items : List CItem} {c₁ c₂ : Counter} (hwf : CSrcWFItems d items = true)
+    (hc₁ : C13.ValidCounter Gen.counterLimit c₁) (hc₂ : C13.ValidCounter Gen.counterLimit c₂)
+    (hb : nBlockI items ≤ 1000000) :
+    canonSD (denC c₂ items) = canonSD (denC c₁ items) := by
+  rw [(denC_natural hwf hc₁ hc₂ hb).2.2, canonSD_ren' (shift_ok c₁ c₂) renOK_id]
+
+/-- **C08, commented documents, canonical form** (what the harness compares on the real code): the canonical forms of
+    the results of two reads of the same text from two valid counter values are equal; both reads succeed -/
+theorem C08_commented_canon {items : List CItem} {gaps : List Str} {tail : Str} (dir : Str) {c₁ c₂ : Counter}
+    (hwf : CSrcWFItems 1 items = true) (hg : GapsOKC (ctoksItems items) gaps tail = true)
+    (htail : items = [] → tail.all isWs = true)
+    (hc₁ : C13.ValidCounter Gen.counterLimit c₁) (hc₂ : C13.ValidCounter Gen.counterLimit c₂)
+    (hn : C02.countQuotedEs (plainItems items) ≤ Gen.counterLimit + 1)
+    (hd : C02.DocKeysAbsent (plainItems items)) (hb : nBlockI items ≤ 1000000) :
+    (parseNative true dir c₁ (spreadC (ctoksItems items) gaps tail)).map (fun r => canonSD r.1) =
+        .ok (canonSD (denC c₁ items)) ∧
+      (parseNative true dir c₂ (spreadC (ctoksItems items) gaps tail)).map (fun r => canonSD r.1) =
+        .ok (canonSD (denC c₁ items)) := by
+  obtain ⟨h₁, h₂⟩ := C08_commented_read_natural dir hwf hg htail hc₁ hc₂ hn hd hb
+  rw [h₁, h₂]
+  exact ⟨rfl, by simp only [Except.map]; rw [canonSD_ren' (shift_ok c₁ c₂) renOK_id]⟩
+
+
+/-- … in the form "the same whatever value the counter has reached" -/
+theorem C08_commented_canon_eq {items : List CItem} {gaps : List Str} {tail : Str} (dir : Str) {c₁ c₂ : Counter}
+    (hwf : CSrcWFItems 1 items = true) (hg : GapsOKC (ctoksItems items) gaps tail = true)
+    (htail : items = [] → tail.all isWs = true)
+    (hc₁ : C13.ValidCounter Gen.counterLimit c₁) (hc₂ : C13.ValidCounter Gen.counterLimit c₂)
+    (hn : C02.countQuotedEs (plainItems items) ≤ Gen.counterLimit + 1)
+    (hd : C02.DocKeysAbsent (plainItems items)) (hb : nBlockI items ≤ 1000000) :
+    (parseNative true dir c₁ (spreadC (ctoksItems items) gaps tail)).map (fun r => canonSD r.1) =
+      (parseNative true dir c₂ (spreadC (ctoksItems items) gaps tail)).map (fun r => canonSD r.1) := by
+  obtain ⟨h₁, h₂⟩ := C08_commented_canon dir hwf hg htail hc₁ hc₂ hn hd hb
+  rw [h₁, h₂]
+
+/-! ## 5. non-vacuity: the example document of `C12stages`, read from a fresh counter and from `999998`
+    (the wrap-around falls between the first and the second line comment) -/
+
+open DictIO.C12 (exDoc exGaps exDoc_wf exGaps_ok)
+
+theorem exDoc_blocks : nBlockI exDoc ≤ 1000000 := by decide +kernel
+
+theorem ex_valid : C13.ValidCounter Gen.counterLimit (some 999998) := Or.inr ⟨999998, rfl, by decide⟩
+
+/-- both reads succeed and differ by the renaming -/
+theorem exDoc_reads (dir : Str) :
+    parseNative true dir none (spreadC (ctoksItems exDoc) exGaps ['\n']) =
+      .ok (denC none exDoc, counterAfter none exDoc) ∧
+    parseNative true dir (some 999998) (spreadC (ctoksItems exDoc) exGaps ['\n']) =
+      .ok (renSD (shift none (some 999998)) id (denC none exDoc), counterAfter (some 999998) exDoc) :=
+  C08_commented_read_natural dir exDoc_wf exGaps_ok (fun h => by cases h) (Or.inl rfl) ex_valid (by decide +kernel)
+    (by decide +kernel) exDoc_blocks
+
+/-- the rotation on the example: `0 ↦ 999999`, `1 ↦ 0`, `2 ↦ 1` … -/
+theorem exDoc_shift : (alloc Gen.counterLimit 5 none).map (shift none (some 999998)) = [999999, 0, 1, 2, 3] ∧
+    alloc Gen.counterLimit 5 (some 999998) = [999999, 0, 1, 2, 3] := by decide +kernel
+
+/-- the read from the fresh counter, evaluated: ids 0, 1, 2 survive `_clean` (3 and 4 repeat a text of their level) -/
+theorem exDoc_none :
+    (denC none exDoc).data =
+      [ (.str "LINECOMMENT000000".toList, .leaf (.str "LINECOMMENT000000".toList)),
+        (.str "BLOCKCOMMENT000000".toList, .leaf (.str "BLOCKCOMMENT000000".toList)),
+        (.str ['a'], .leaf (.int 1)),
+        (.str "LINECOMMENT000001".toList, .leaf (.str "LINECOMMENT000001".toList)),
+        (.str ['n'], .dict [
+          (.str "LINECOMMENT000002".toList, .leaf (.str "LINECOMMENT000002".toList)),
+          (.str ['p'], .leaf (.str "x y".toList)),
+          (.str "BLOCKCOMMENT000001".toList, .leaf (.str "BLOCKCOMMENT000001".toList))]),
+        (.str ['l'], .list [.leaf (.int 1), .leaf (.str "it's".toList)]) ] ∧
+    (denC none exDoc).lineC =
+      [(0, "// first".toList), (1, "// tail 'q' ; { $x".toList), (2, "// nested".toList)] ∧
+    (denC none exDoc).blockC = [(0, "/* hdr C++ x */".toList), (1, "/*blk\n two*/".toList)] := by
+  refine ⟨?_, ?_, ?_⟩ <;> decide +kernel
+
+/-- the read from `999998`, evaluated directly (not through the theorem): ids 999999, 0, 1 -/
+theorem exDoc_wrap :
+    (denC (some 999998) exDoc).data =
+      [ (.str "LINECOMMENT999999".toList, .leaf (.str "LINECOMMENT999999".toList)),
+        (.str "BLOCKCOMMENT000000".toList, .leaf (.str "BLOCKCOMMENT000000".toList)),
+        (.str ['a'], .leaf (.int 1)),
+        (.str "LINECOMMENT000000".toList, .leaf (.str "LINECOMMENT000000".toList)),
+        (.str ['n'], .dict [
+          (.str "LINECOMMENT000001".toList, .leaf (.str "LINECOMMENT000001".toList)),
+          (.str ['p'], .leaf (.str "x y".toList)),
+          (.str "BLOCKCOMMENT000001".toList, .leaf (.str "BLOCKCOMMENT000001".toList))]),
+        (.str ['l'], .list [.leaf (.int 1), .leaf (.str "it's".toList)]) ] ∧
+    (denC (some 999998) exDoc).lineC =
+      [(999999, "// first".toList), (0, "// tail 'q' ; { $x".toList), (1, "// nested".toList)] ∧
+    (denC (some 999998) exDoc).blockC = [(0, "/* hdr C++ x */".toList), (1, "/*blk\n two*/".toList)] := by
+  refine ⟨?_, ?_, ?_⟩ <;> decide +kernel
+
+/-- the renaming of the first read, evaluated: it is the second read (an evaluation that does not go through
+    `denC_natural`) -/
+theorem exDoc_renamed :
+    (renSD (shift none (some 999998)) id (denC none exDoc)).data = (denC (some 999998) exDoc).data ∧
+    (renSD (shift none (some 999998)) id (denC none exDoc)).lineC = (denC (some 999998) exDoc).lineC ∧
+    (renSD (shift none (some 999998)) id (denC none exDoc)).blockC = (denC (some 999998) exDoc).blockC := by
+  refine ⟨?_, ?_, ?_⟩ <;> decide +kernel
+
+/-- the two reads are different data … -/
+theorem exDoc_differ : (denC (some 999998) exDoc).data ≠ (denC none exDoc).data := by decide +kernel
+
+/-- … with the same canonical form, which on this example is the read from the fresh counter -/
+theorem exDoc_canon : canonSD (denC (some 999998) exDoc) = canonSD (denC none exDoc) :=
+  C08_denC_canon exDoc_wf (Or.inl rfl) ex_valid exDoc_blocks
+
+theorem exDoc_canon_eval :
+    (canonSD (denC (some 999998) exDoc)).data = (denC none exDoc).data ∧
+    (canonSD (denC (some 999998) exDoc)).lineC = (denC none exDoc).lineC ∧
+    (canonSD (denC (some 999998) exDoc)).blockC = (denC none exDoc).blockC := by
+  refine ⟨?_, ?_, ?_⟩ <;> decide +kernel
+
+
+/-! ## 6. what is false, on witnesses -/
+
+/-- block-comment ids are *not* drawn from the counter: renaming them like the line-comment ids gives something else
+    than the second read (this is why `denC_natural` renames with `id` on block comments) -/
+theorem exDoc_block_ids_local :
+    (renSD (shift none (some 999998)) (shift none (some 999998)) (denC none exDoc)).data ≠ (denC (some 999998) exDoc).data := by
+  decide +kernel
+
+/-- exchange the ids 0 and 1 -/
+def swap01 (i : Nat) : Nat := if i = 0 then 1 else if i = 1 then 0 else i
+
+theorem swap01_ok : RenOK swap01 := by
+  refine ⟨fun i j h => ?_, fun i hi => ?_⟩
+  · simp only [swap01] at h
+    split at h <;> split at h <;> (try split at h) <;> (try split at h) <;> omega
+  · simp only [swap01]
+    split
+    · omega
+    · split <;> omega
+
+/-- **`_clean` does not commute with the renaming on arbitrary data**: a key that merely *contains* a placeholder
+    (`xLINECOMMENT000001`) is read by `_clean` as a line comment with the id 1, but is no placeholder word and is not
+    renamed.  Hence the hypothesis `PhWFEs` of `clean_ren` (every key `_clean` looks at is an exact placeholder word or
+    contains none); the meanings of commented documents satisfy it (`phWF_labelI`). -/
+theorem clean_ren_needs_wf :
+    ¬ ∀ (f g : Nat → Nat) (s : SD), RenOK f → RenOK g → (renSD f g s).clean = renSD f g s.clean := by
+  intro h
+  have := congrArg SD.lineC (h swap01 id
+    { data := [(.str "LINECOMMENT000000".toList, .leaf .none), (.str "xLINECOMMENT000001".toList, .leaf .none)],
+      lineC := [(0, ['a']), (1, ['a'])] } swap01_ok renOK_id)
+  revert this
+  decide +kernel
 
 end DictIO.C08
